@@ -171,7 +171,7 @@ def stepAnswer (op : COp Float) (snap reg draws : List String) : String :=
       -- (`state.len() % 2`), the route model on the row count; with an odd number of rows and an even
       -- number of columns the implementation goes on with garbage where the model stops
       | .ok (.error (.panic _), _) =>
-        if hasDupQubits op && st.counts.length % 2 == 0 && st.counts.length > 0 then "panic-or-garbage" else "panic"
+        if hasDupQubits op && st.counts.length % 2 == 0 then "panic-or-garbage" else "panic"
       | .ok (.error f, _) => showFail f
       | .ok (.ok (st', reg'), rest) =>
         if !rest.isEmpty then "draw-mismatch impl-made-more-draws-than-model"
@@ -275,17 +275,19 @@ def isClifford (circ : Circ Float) : Bool :=
       (match conjOfTerm g (List.replicate (Gate.nrBits g) .I) with | .error .notAStabilizer => false | _ => true)
     | _ => true
 
-def execTag (what : String) (circ : Circ Float) (shots : Nat) (i : Nat) : String :=
+def execTag (what : String) (circ : Circ Float) (shots : Nat) (i : Nat) (reexec : Bool := false) : String :=
   let ds := match circ.ops[i]? with | some op => opDefects circ.nq op | none => []
-  -- with 0 shots anything that touches the (empty) register or the ranges may panic (D9)
-  if shots = 0 then s!"{what}:zero-shots" else
+  -- a panic with 0 shots: anything that touches the (empty) register or the ranges may panic (D9)
+  if shots = 0 && what = "exec-panic" then s!"{what}:zero-shots" else
   match firstTag ds Defect.exec with
   | some t => s!"{what}:{t}"
   | none =>
-      -- a defect of an earlier operation may have left a state the failing operation trips over
-      match firstTag ((circ.ops.take i).flatMap (opDefects circ.nq)) Defect.exec with
-      | some t => s!"{what}:after-{t}"
-      | none => s!"{what}:wellformed-circuit"
+    if shots = 0 then s!"{what}:zero-shots" else
+    -- a defect of an earlier operation may have left a state the failing operation trips over
+    -- (on re-execution: of ANY operation of the previous run)
+    match firstTag (((if reexec then circ.ops else circ.ops.take i)).flatMap (opDefects circ.nq)) Defect.exec with
+    | some t => s!"{what}:after-{t}"
+    | none => s!"{what}:wellformed-circuit"
 
 def specPair (circ : Circ Float) (fs : List (List String)) : String :=
   match fs with
@@ -294,7 +296,8 @@ def specPair (circ : Circ Float) (fs : List (List String)) : String :=
     | some shots, some v, some rv, some s, some rs =>
       let runs := [("vector", v), ("vector-reexecute", rv), ("stabilizer", s), ("stabilizer-reexecute", rs)]
       match runs.find? (fun r => r.2.kind = "panic") with
-      | some (name, r) => s!"fail {execTag "exec-panic" circ shots r.at_} {name} panics at operation {r.at_}"
+      | some (name, r) =>
+        s!"fail {execTag "exec-panic" circ shots r.at_ (name.endsWith "reexecute")} {name} panics at operation {r.at_}"
       | none =>
         -- identical rejection: same kind, same constructor, same operation; a non-Clifford circuit is
         -- legitimately refused by the stabilizer representation
@@ -303,9 +306,10 @@ def specPair (circ : Circ Float) (fs : List (List String)) : String :=
         if !stabRefuses && !same v s then
           let i := if v.kind = "ok" then s.at_ else if s.kind = "ok" then v.at_ else min v.at_ s.at_
           s!"fail {execTag "reps-diverge" circ shots i} vector={v.kind} {v.ctor} stabilizer={s.kind} {s.ctor}"
-        else if !stabRefuses && rv.kind ≠ "skipped" && rs.kind ≠ "skipped" && !same rv rs then
+        else if !stabRefuses && !(!isClifford circ && rs.kind = "err" && rs.ctor = "notAStabilizer") &&
+            rv.kind ≠ "skipped" && rs.kind ≠ "skipped" && !same rv rs then
           let i := if rv.kind = "ok" then rs.at_ else if rs.kind = "ok" then rv.at_ else min rv.at_ rs.at_
-          s!"fail {execTag "reps-diverge" circ shots i} reexecute vector={rv.kind} {rv.ctor} stabilizer={rs.kind} {rs.ctor}"
+          s!"fail {execTag "reps-diverge" circ shots i true} reexecute vector={rv.kind} {rv.ctor} stabilizer={rs.kind} {rs.ctor}"
         else
           -- accepted by both although malformed: silently simulated
           if v.kind = "ok" && s.kind = "ok" then
